@@ -508,3 +508,59 @@ def safe_index_in_try(module: Node) -> str:
         return module[: module.index(".")]
     except ValueError:
         return module
+
+
+def safe_remainder_after_removeprefix(module: Node, other: Node) -> bool:
+    rest = module.removeprefix(other)
+    return rest != module and rest.startswith(".") or module == other
+
+
+def safe_remainder_examined_inline(module: Node, other: Node) -> bool:
+    return module.startswith(other) and module[len(other):][:1] in ("", ".")
+
+
+def safe_prefixes_in_dict(module: Node, aliases: dict[Node, str]) -> str:
+    prefixes = {name: name + "." for name in aliases}
+    for name in sorted(aliases, key=len, reverse=True):
+        if module == name or module.startswith(prefixes[name]):
+            return aliases[name] + module[len(name):]
+    return module
+
+
+class _Alias:
+    def __init__(self, module: Node, alias: str) -> None:
+        self.module = module
+        self.alias = alias
+        self._dotted = module + "."
+
+    @property
+    def prefix(self) -> str:
+        return f"{self.module}."
+
+    def safe_covers(self, name: Node) -> bool:
+        return name == self.module or name.startswith(self.prefix) or name.startswith(self._dotted)
+
+    def unsafe_covers(self, name: Node) -> bool:
+        return name.startswith(self.module)
+
+
+def safe_find_loop(module: Node) -> list[str]:
+    parents = []
+    position = module.find(".")
+    while position != -1:
+        parents.append(module[:position])
+        position = module.find(".", position + 1)
+    return parents
+
+
+def unsafe_strip_by_name(module: Node, other: Node) -> str:
+    return module.lstrip(other)
+
+
+def safe_fullmatch_escaped(module: Node, other: Node) -> bool:
+    return re.fullmatch(re.escape(other), module) is not None
+
+
+def unsafe_prefix_with_separator_cut_off(module: Node, other: Node) -> bool:
+    dotted = other + "."
+    return module.startswith(dotted[:-1])
